@@ -6,8 +6,10 @@ package main
 import (
 	"fmt"
 	"go/ast"
+	"go/constant"
 	"go/token"
 	"go/types"
+	"os"
 	"sort"
 	"strings"
 
@@ -312,23 +314,25 @@ func (fs *FactSet) describe() []string {
 // ---------------------------------------------------------------------------------------------
 
 type Flow struct {
-	u        *FuncUnit
-	m        *Model
-	ef       *effects
-	info     *types.Info
-	g        *cfg.CFG
-	in       []*FactSet
-	at       *atomTable
-	z        *linearizer
-	raw      *canonCtx
-	escaped  map[*types.Var]bool // address taken, or assigned inside a nested literal
-	fresh    map[*types.Var]bool // local pointers that only ever hold a newly obtained object
-	caseTag  map[ast.Expr]ast.Expr
-	entry    []*Fact
-	ok       bool // fixpoint reached
-	iters    int
-	retBnd   func(call *ast.CallExpr) []retBound
-	resFresh func(call *ast.CallExpr) []bool // per result: freshly allocated by the callee
+	u         *FuncUnit
+	m         *Model
+	ef        *effects
+	info      *types.Info
+	g         *cfg.CFG
+	in        []*FactSet
+	at        *atomTable
+	z         *linearizer
+	raw       *canonCtx
+	escaped   map[*types.Var]bool // address taken, or assigned inside a nested literal
+	fresh     map[*types.Var]bool // local pointers that only ever hold a newly obtained object
+	caseTag   map[ast.Expr]ast.Expr
+	entry     []*Fact
+	ok        bool // fixpoint reached
+	iters     int
+	retBnd    func(call *ast.CallExpr) []retBound
+	resFresh  func(call *ast.CallExpr) []bool  // per result: freshly allocated by the callee
+	synthSel  map[*ast.SelectorExpr]*types.Var // field selections synthesised by literalFieldsInto
+	preserves func(call *ast.CallExpr) bool    // callee keeps inner references inner (engine summary)
 }
 
 // retBound says: result ≤ len(arg[Arg]) - (Minus >= 0 ? arg[Minus] : 0).
@@ -409,6 +413,9 @@ func newFlow(m *Model, ef *effects, u *FuncUnit, entry func(fl *Flow) []*Fact, r
 	}
 	scan(u.Body, false)
 	fl.findFresh()
+	if preFlowHook != nil {
+		preFlowHook(fl)
+	}
 	// a method value x.m with pointer receiver on an addressable value takes &x implicitly;
 	// calls are handled at the call site (see applyCalls).
 	if entry != nil {
@@ -418,8 +425,12 @@ func newFlow(m *Model, ef *effects, u *FuncUnit, entry func(fl *Flow) []*Fact, r
 	return fl
 }
 
-// isFreshExpr: new(T), &T{…}, or <pool>.Get().(*T).
-func isFreshExpr(info *types.Info, e ast.Expr) bool {
+// isFreshExpr: new(T), &T{…}, <pool>.Get().(*T), or a call of a library helper whose every
+// return is one of those (acquireNode4()).
+func isFreshExpr(m *Model, e ast.Expr) bool { return isFreshExprDepth(m, e, 0) }
+
+func isFreshExprDepth(m *Model, e ast.Expr, depth int) bool {
+	info := m.Info
 	switch x := ast.Unparen(e).(type) {
 	case *ast.UnaryExpr:
 		if x.Op == token.AND {
@@ -427,7 +438,23 @@ func isFreshExpr(info *types.Info, e ast.Expr) bool {
 			return ok
 		}
 	case *ast.CallExpr:
-		return isBuiltinCall(info, x, "new")
+		if isBuiltinCall(info, x, "new") {
+			return true
+		}
+		if depth < 3 && !isConversion(info, x) {
+			if cu := m.calleeUnit(x); cu != nil {
+				rets, all := returnExprs(cu)
+				if !all {
+					return false
+				}
+				for _, r := range rets {
+					if !isFreshExprDepth(m, m.throughLocals(cu, r), depth+1) {
+						return false
+					}
+				}
+				return true
+			}
+		}
 	case *ast.TypeAssertExpr:
 		if c, ok := ast.Unparen(x.X).(*ast.CallExpr); ok {
 			if sel, ok := ast.Unparen(c.Fun).(*ast.SelectorExpr); ok && sel.Sel.Name == "Get" {
@@ -456,7 +483,7 @@ func (fl *Flow) findFresh() {
 					continue
 				}
 				defs[v]++
-				if len(x.Lhs) == len(x.Rhs) && isFreshExpr(fl.info, x.Rhs[i]) {
+				if len(x.Lhs) == len(x.Rhs) && isFreshExpr(fl.m, x.Rhs[i]) {
 					freshDef[v] = true
 				}
 			}
@@ -484,6 +511,9 @@ func (fl *Flow) mkFact(f *Fact, exprs ...ast.Expr) *Fact {
 		ast.Inspect(e, func(n ast.Node) bool {
 			switch x := n.(type) {
 			case *ast.SelectorExpr:
+				if fv := fl.synthSel[x]; fv != nil {
+					f.fields[fv.Origin()] = true
+				}
 				if s := fl.info.Selections[x]; s != nil && s.Kind() == types.FieldVal {
 					if fv, ok := s.Obj().(*types.Var); ok {
 						f.fields[fv.Origin()] = true
@@ -779,6 +809,16 @@ func (fl *Flow) applyAssign(fs *FactSet, x *ast.AssignStmt) {
 			fl.applyStore(fs, l)
 		}
 	}
+	// a struct literal stored through a pointer or into a field: its constant fields are known
+	// afterwards (*ref = nodeRef{pointer: p, tag: nodeKind4}  ⇒  ref.tag == nodeKind4)
+	if len(x.Lhs) == len(x.Rhs) && x.Tok == token.ASSIGN {
+		for i, l := range x.Lhs {
+			if _, isId := ast.Unparen(l).(*ast.Ident); isId {
+				continue
+			}
+			fl.literalFieldsInto(fs, l, x.Rhs[i])
+		}
+	}
 	if len(x.Lhs) == len(x.Rhs) {
 		// parallel assignment: only safe to record when no RHS mentions an assigned variable
 		assigned := map[*types.Var]bool{}
@@ -802,6 +842,78 @@ func (fl *Flow) applyAssign(fs *FactSet, x *ast.AssignStmt) {
 			}
 			if !clash || len(idents) == 1 {
 				fl.defineInto(fs, id, x.Rhs[i])
+			}
+		}
+	}
+}
+
+// literalFieldsInto records lhs.f == c for every constant field c of a struct literal stored into
+// lhs – written in place or returned by the only return statement of a helper.
+func (fl *Flow) literalFieldsInto(fs *FactSet, lhs, rhs ast.Expr) {
+	rhs = ast.Unparen(rhs)
+	if call, ok := rhs.(*ast.CallExpr); ok && !isConversion(fl.info, call) {
+		if cu := fl.m.calleeUnit(call); cu != nil {
+			if r := simpleReturn(cu); r != nil {
+				rhs = ast.Unparen(r)
+			}
+		}
+	}
+	cl, ok := rhs.(*ast.CompositeLit)
+	if !ok {
+		return
+	}
+	t := fl.info.TypeOf(cl)
+	if t == nil {
+		return
+	}
+	st, ok := t.Underlying().(*types.Struct)
+	if !ok {
+		return
+	}
+	if v, through := rootVar(fl.info, lhs); v == nil || (!through && fl.escaped[v]) {
+		return
+	}
+	for i, el := range cl.Elts {
+		name := ""
+		val := el
+		if kv, isKV := el.(*ast.KeyValueExpr); isKV {
+			if id, isId := kv.Key.(*ast.Ident); isId {
+				name = id.Name
+			}
+			val = kv.Value
+		} else if i < st.NumFields() {
+			name = st.Field(i).Name()
+		}
+		tv, has := fl.info.Types[val]
+		if name == "" || !has || tv.Value == nil {
+			continue
+		}
+		base := lhs
+		if se, isStar := ast.Unparen(lhs).(*ast.StarExpr); isStar {
+			base = se.X // ref.tag reads the same memory as (*ref).tag
+		}
+		var fld *types.Var
+		for k := 0; k < st.NumFields(); k++ {
+			if st.Field(k).Name() == name {
+				fld = st.Field(k)
+			}
+		}
+		if fld == nil {
+			continue
+		}
+		sel := &ast.SelectorExpr{X: base, Sel: ast.NewIdent(name)}
+		if fl.synthSel == nil {
+			fl.synthSel = map[*ast.SelectorExpr]*types.Var{}
+		}
+		fl.synthSel[sel] = fld
+		fl.cmpInto(fs, sel, token.EQL, val, true, fl.m.pos(cl.Pos()))
+		// tag == <inner kind> also as the weaker tag != leaf, which survives a join with a path on
+		// which the node changed size class
+		if fl.m.KindType != nil && types.Identical(tv.Type, fl.m.KindType) {
+			if k, exact := constant.Int64Val(tv.Value); exact && k != fl.m.LeafKind.Value {
+				if lc := fl.m.leafConstExpr(); lc != nil {
+					fl.cmpInto(fs, sel, token.NEQ, lc, true, fl.m.pos(cl.Pos()))
+				}
 			}
 		}
 	}
@@ -842,6 +954,13 @@ func (fl *Flow) applyStore(fs *FactSet, lhs ast.Expr) {
 							continue
 						}
 					}
+					// an element of arr[a:b]: the memory is that of arr
+					if _, isSlice := t.Underlying().(*types.Slice); isSlice {
+						if se, isSE := ast.Unparen(x.X).(*ast.SliceExpr); isSE {
+							e = se
+							continue
+						}
+					}
 				}
 			case *ast.SliceExpr:
 				e = ast.Unparen(x.X)
@@ -851,7 +970,7 @@ func (fl *Flow) applyStore(fs *FactSet, lhs ast.Expr) {
 		}
 		switch x := e.(type) {
 		case *ast.SelectorExpr:
-			if s := fl.info.Selections[x]; s != nil && s.Kind() == types.FieldVal && len(s.Index()) == 1 {
+			if s := fl.info.Selections[x]; s != nil && s.Kind() == types.FieldVal {
 				if fv, ok := s.Obj().(*types.Var); ok {
 					fs.killField(fv)
 					// storing a whole struct into a field also changes the fields of that struct
@@ -878,6 +997,25 @@ func (fl *Flow) applyStore(fs *FactSet, lhs ast.Expr) {
 	}
 }
 
+// preFlowHook lets the engine attach its summaries to a flow before the fixpoint runs.
+var preFlowHook func(fl *Flow)
+
+// leafConstExpr: some expression of the package that denotes the leaf tag constant (for facts
+// the engine synthesises).
+func (m *Model) leafConstExpr() ast.Expr {
+	if m.leafConst != nil {
+		return m.leafConst
+	}
+	for id, obj := range m.Info.Uses {
+		if cst, ok := obj.(*types.Const); ok && cst.Name() == m.LeafKind.Name && cst.Pkg() == m.Pkg {
+			if m.leafConst == nil || id.Pos() < m.leafConst.Pos() {
+				m.leafConst = id
+			}
+		}
+	}
+	return m.leafConst
+}
+
 func (fl *Flow) applyCalls(fs *FactSet, n ast.Node) {
 	ast.Inspect(n, func(x ast.Node) bool {
 		switch c := x.(type) {
@@ -891,6 +1029,50 @@ func (fl *Flow) applyCalls(fs *FactSet, n ast.Node) {
 				// copy/clear write the elements behind their first argument
 				fl.applyStore(fs, &ast.IndexExpr{X: c.Args[0], Index: &ast.BasicLit{Kind: token.INT, Value: "0"}})
 				return true
+			}
+			// references known not to be leaves stay so across a callee that only stores inner
+			// references through the *nodeRef it is given
+			var keepInner []ast.Expr
+			if fl.preserves != nil && fl.preserves(c) {
+				cands := append([]ast.Expr{}, c.Args...)
+				if sel, ok := ast.Unparen(c.Fun).(*ast.SelectorExpr); ok && fl.info.Selections[sel] != nil {
+					cands = append(cands, sel.X)
+				}
+				for _, a := range cands {
+					t := fl.info.TypeOf(a)
+					if t == nil {
+						continue
+					}
+					if p, isPtr := t.Underlying().(*types.Pointer); isPtr {
+						if nn := namedOf(p.Elem()); nn != nil && fl.m.NodeRef != nil && nn.Obj() == fl.m.NodeRef.Obj() {
+							known, excl := fs.tagOf(a)
+							if (known != nil && *known != fl.m.LeafKind.Value) || excl[fl.m.LeafKind.Value] {
+								if _, isId := ast.Unparen(a).(*ast.Ident); isId {
+									keepInner = append(keepInner, a)
+								}
+							}
+						}
+					}
+				}
+			}
+			defer func() {
+				if lc := fl.m.leafConstExpr(); lc != nil {
+					for _, a := range keepInner {
+						fld := fieldNamed(fl.m.NodeRef, "tag")
+						if fld == nil {
+							continue
+						}
+						sel := &ast.SelectorExpr{X: a, Sel: ast.NewIdent("tag")}
+						if fl.synthSel == nil {
+							fl.synthSel = map[*ast.SelectorExpr]*types.Var{}
+						}
+						fl.synthSel[sel] = fld
+						fl.cmpInto(fs, sel, token.NEQ, lc, true, fl.m.pos(c.Pos())+" (callee keeps inner references inner)")
+					}
+				}
+			}()
+			if os.Getenv("ARTCHECK_DEBUG") == "calls" {
+				fmt.Fprintf(os.Stderr, "IMPURE %s %s keep=%d\n", fl.m.pos(c.Pos()), types.ExprString(c.Fun), len(keepInner))
 			}
 			fs.killHeap()
 			// variables whose address is passed explicitly or as a pointer receiver
@@ -1287,4 +1469,20 @@ func (fl *Flow) freshExpr(e ast.Expr, fs *FactSet, resIdx int) bool {
 		}
 	}
 	return false
+}
+
+func fieldNamed(n *types.Named, name string) *types.Var {
+	if n == nil {
+		return nil
+	}
+	st, ok := n.Underlying().(*types.Struct)
+	if !ok {
+		return nil
+	}
+	for i := 0; i < st.NumFields(); i++ {
+		if st.Field(i).Name() == name {
+			return st.Field(i)
+		}
+	}
+	return nil
 }
